@@ -116,7 +116,7 @@ def canon_graph(nodes, D=(), B=(), U=(), C=()):
 # ----------------------------------------------------------------------------- labels
 class Labels:
     """bijection int index <-> python label for one label family"""
-    FAMILIES = ("int", "bigint", "str", "tuple", "frozenset")
+    FAMILIES = ("int", "bigint", "str", "tuple", "frozenset", "falsy")
 
     def __init__(self, family="int", salt=0):
         self.family = family
@@ -135,6 +135,10 @@ class Labels:
             lab = ("n", i // 2, i % 2)
         elif f == "frozenset":
             lab = frozenset([i, -1 - i])
+        elif f == "falsy":
+            # labels whose truth value is False (0, (), "", frozenset()) next to multiples of 8 (which share
+            # hash buckets in small sets): a node is a node whatever bool(label) says
+            lab = {3: 0, 4: (), 5: "".join([]), 6: frozenset()}.get(i, 8 * (i + 1))
         else:
             raise ValueError(f)
         self._inv[lab] = i
@@ -152,7 +156,7 @@ class Labels:
             return "".join(list(lab))
         if isinstance(lab, tuple):
             return tuple(list(lab))
-        return frozenset(list(lab))
+        return frozenset(list(lab))  # (the empty tuple / empty frozenset are singletons in CPython)
 
 
 # ----------------------------------------------------------------------------- generators
@@ -450,3 +454,65 @@ def load_corpus(pid):
     if not os.path.isdir(d):
         return []
     return [json.load(open(os.path.join(d, f))) for f in sorted(os.listdir(d)) if f.endswith(".json")]
+
+
+# ----------------------------------------------------------------------------- query - mutate - query on one object
+def warm_decide(case, mod=3):
+    """deterministic (replayable) choice of the cases that get a warm-up query"""
+    import zlib
+    return zlib.crc32(json.dumps(case, sort_keys=True, default=str).encode()) % mod == 0
+
+
+def warmup(G, call, layers=("directed", "bidirected", "circle", "undirected")):
+    """Exercise 'query, edit the same object in place, query again': perturb G in place (reverse one
+    directed edge, or drop one other edge), run `call()` on the perturbed graph (result and exceptions
+    ignored), then restore G in place.  Afterwards G has the same nodes and edges as before (edge insertion
+    order may differ, which no property may depend on).  A function that keeps per-object state across
+    calls (memo tables keyed by the graph object, cached views) answers the real query from stale data."""
+    mixed = hasattr(G, "get_graphs")
+    for layer in layers:
+        try:
+            gr = G.get_graphs(layer) if mixed else G
+        except Exception:
+            continue
+        es = list(gr.edges)
+        if not es:
+            if not mixed:
+                return False
+            continue
+        u, v = es[len(es) // 2]
+        data = dict(gr.get_edge_data(u, v) or {})
+
+        def rm(a, b):
+            G.remove_edge(a, b, layer) if mixed else G.remove_edge(a, b)
+
+        def ad(a, b, **kw):
+            G.add_edge(a, b, layer, **kw) if mixed else G.add_edge(a, b, **kw)
+        try:
+            rm(u, v)
+        except Exception:
+            return False
+        rev = False
+        if gr.is_directed() and not gr.has_edge(v, u):
+            try:
+                ad(v, u)
+                rev = True
+            except Exception:
+                rev = False
+        try:
+            call()
+        except BaseException:
+            pass
+        finally:
+            if rev:
+                try:
+                    rm(v, u)
+                except Exception:
+                    pass
+            try:
+                ad(u, v, **data)
+            except Exception:
+                # restore through the layer itself if a class guard objects
+                gr.add_edge(u, v, **data)
+        return True
+    return False
